@@ -2,6 +2,7 @@ package harness
 
 import (
 	"pgregory.net/rapid"
+	"strings"
 )
 
 type scriptGenOpts struct {
@@ -35,6 +36,7 @@ func genScript(t *rapid.T, g scriptGenOpts) Script {
 		s.ReqMDMore = genMD(t, "reqmd2", g.MDKeys)
 	}
 	s.Deadline = rapid.IntRange(0, 3).Draw(t, "deadline") == 0
+	s.CtxAPI = rapid.IntRange(0, 2).Draw(t, "ctxapi") == 0
 	s.Chunked = rapid.IntRange(0, 4).Draw(t, "chunked") == 0
 	s.RespWithErr = rapid.IntRange(0, 2).Draw(t, "respwitherr") == 0
 	if rapid.IntRange(0, 7).Draw(t, "spoof") == 0 {
@@ -90,6 +92,14 @@ func genScript(t *rapid.T, g scriptGenOpts) Script {
 			nsend++
 		default:
 			op.MD = genMD(t, "opmd", g.MDKeys)
+			if g.MDKeys > 0 && len(s.HOps) > 0 && rapid.IntRange(0, 3).Draw(t, "samekey") == 0 {
+				// a key used earlier, possibly on the other side (the same key as header and as trailer)
+				prev := s.HOps[rapid.IntRange(0, len(s.HOps)-1).Draw(t, "samekeyfrom")]
+				if len(prev.MD) > 0 {
+					k := prev.MD[0].K
+					op.MD = append(op.MD, MDPair{K: k, V: genMDValue(t, "samekeyval", strings.HasSuffix(k, "-bin"))})
+				}
+			}
 		}
 		s.HOps = append(s.HOps, op)
 	}
